@@ -982,6 +982,9 @@ func Settle() {
 // Explore turns recording/exploration of scheduling points on or off.
 func Explore(on bool) { ex.exploring = on }
 
+// Exploring reports whether scheduling points are currently recorded/explored.
+func Exploring() bool { return ex.exploring }
+
 // Quiesce blocks the root until no other thread can make progress without a
 // clock advance.
 func Quiesce() {
